@@ -386,6 +386,14 @@ static void runL1(const plan::Plan& p, hz::RunResult* res, bool verbose) {
   // run until the plan is consumed and all requests are done, at most maxDuration
   int64_t minDur = c.num("minms", 200) * MS;
   int64_t settle = c.num("settlems", 60000) * MS;
+  {
+    // liveness bound: every queued request may need all its arbitration and send retries, each after a full lock period
+    int64_t attempts = 0;
+    for (auto& r : rd.reqs) attempts += (r.second.restarts + 1) * static_cast<int64_t>(rd.hc.sendRetries + 1) * (rd.hc.acquireRetries + 1);
+    int64_t worst = attempts * (static_cast<int64_t>(rd.hc.lockCount) + 3) * 50 * MS * 3 / 2 + 10000 * MS;
+    if (worst > settle) settle = worst;
+  }
+  rd.settleNs = settle;
   int64_t lastReqMs = 0;
   for (auto& r : rd.reqs) if (r.second.atMs > lastReqMs) lastReqMs = r.second.atMs;
   auto allDone = [&]() {
@@ -410,6 +418,7 @@ static void runL1(const plan::Plan& p, hz::RunResult* res, bool verbose) {
       quietSince = -1;
     }
     int64_t base = std::max<int64_t>(std::max<int64_t>(rd.lastFaultT, lastFaultMs * MS), lastReqMs * MS);
+    for (auto& r : rd.reqs) base = std::max<int64_t>(base, r.second.submitT);   // requests submitted from callbacks have no planned time
     if (faultsOver && bus.itemsExhausted() && t - base > settle) break;
     if (t > 3600 * sim::SEC) break;
   }
